@@ -33,12 +33,16 @@ TRUSTED = [
     "hand-written model lean/CogentModel/Model/GapMerge.lean of app/align.py gap-dict helpers (tied by exact "
     "comparison with the real _GapOffset/_merged_gaps/_combined_refseq_gaps/_gaps_for_injection/pairwise_to_multiple)",
     "Spec/PairHMM.lean (path, score) and the row spec at the bottom of Model/GapMerge.lean",
+    "hand-written model lean/CogentModel/Model/Progressive.lean of the progressive column merge (pog_traceback completion, "
+    "_calcAligneds re-gapping in the pinned and the repaired variant), tied by exact comparison with the real code on every "
+    "observed step of progressive_align and on random guide trees / DP outcomes",
 ]
 ASSUMPTIONS = [
     "float64 rounding inside the DP is not modelled: scores are compared under relative tolerance 1e-9",
     "exp/log that turn the classic score matrix and gap costs into the HMM happen in Python; the model starts at the "
     "log-space arrays the kernel receives",
-    "progressive alignment (POG kernel, tree_align) is only exercised: rows degap to inputs, equal length",
+    "progressive alignment: the POG kernel's scores are not modelled; its OUTPUT at every node (aligned positions) is taken as "
+    "given and the column-merge step (pog_traceback, map_traceback, _calcAligneds/merge_maps, rendering) is modelled and tied",
     "empty sequences make the aligners raise; recorded in the distribution, not a property violation",
     "user-model oracle (harness user_hmm): the HMM the caller's score matrix and gap costs denote is rebuilt independently "
     "(row-normalised exp(-cost), match emission log|alphabet| + Sd[s1 motif, s2 motif]); only the BEGIN distribution mirrors "
@@ -649,6 +653,20 @@ def correspondence(ctx):
     _classic_tie(ctx, ties, rng)
     _gap_correspondence(ctx, ties, rng)
     repaired_p2m_checks(ctx, ties, rng, ctx.budget(300, 4000))
+    # progressive alignment: the real column-merge code on random guide trees / DP outcomes vs Model/Progressive.lean
+    from . import c18_prog
+
+    prog = new_outcome()
+    c18_prog.synthetic_checks(ctx, prog, ctx.subrng("corr-prog"), ctx.budget(120, 1500))
+    c18_prog.malformed_positions_tie(ctx, prog, ctx.subrng("corr-prog-bad"), ctx.budget(150, 2000))
+    c18_prog.repaired_checks(ctx, prog, ctx.subrng("corr-prog-fixed"), ctx.budget(60, 800))
+    prog["dist"].pop("_prog_known_kept", None)
+    for f in prog["failures"]:
+        ties["failures"].append(f)
+    ties["evaluations"] += prog["evaluations"]
+    ties["nontrivial"] |= prog["nontrivial"]
+    for k, v in prog["dist"].items():
+        ties["dist"][k] = v
     from .common import merge_outcomes
 
     rule = out["rule"]
@@ -1251,8 +1269,10 @@ def check_sw_app(ctx, out, s1, s2, moltype, mat, d, e, names=("a", "b")):
         out["nontrivial"].add(("sw", s1, s2, cls, d, e))
 
 
-def check_progressive(out, seqs, model, tree, params=None):
+def check_progressive(out, seqs, model, tree, params=None, ctx=None):
     from cogent3 import get_app, make_unaligned_seqs
+
+    from . import c18_prog
 
     params = params or {}
     moltype = "protein" if model in ("protein", "JTT92", "WG01") else "dna"
@@ -1262,9 +1282,11 @@ def check_progressive(out, seqs, model, tree, params=None):
     bump(out, "progressive_nseqs", len(seqs))
     bump(out, "progressive_model", model)
     bump(out, "progressive_params", ",".join(sorted(params)) or "default")
+    nodes = []
     try:
         app = get_app("progressive_align", model, guide_tree=tree, **params)
-        res = app(coll)
+        with c18_prog.capture_nodes() as nodes:
+            res = app(coll)
     except Exception as ex:  # noqa: BLE001
         add_failure(out, "spec", "progressive_align raised", inp, "alignment", type(ex).__name__ + ": " + str(ex)[:100], sig=f"prog:raised:{type(ex).__name__}")
         return
@@ -1281,6 +1303,17 @@ def check_progressive(out, seqs, model, tree, params=None):
     if any(rows[n].replace("-", "") != seqs[n] for n in seqs):
         add_failure(out, "spec", "progressive_align rows do not degap to the inputs", inp, seqs, rows, sig="prog:degap")
         return
+    # every column-merge step the aligner performed (one per internal node of the guide tree; also the pairwise steps
+    # of a distance-based guide tree): sub-alignments kept, completed positions complete, model tie
+    roots = [nd for nd in nodes if "out" in nd and len(nd["out"]) == len(seqs)]
+    if not roots:
+        add_failure(out, "corr", "no column-merge step covering all sequences was observed", inp, "a root step", [len(nd.get("out", [])) for nd in nodes], confirmed=False)
+    elif dict(roots[-1]["out"]) != rows:
+        add_failure(out, "spec", "progressive_align returns rows that differ from the rows of its root merge step", inp, dict(roots[-1]["out"]), rows, sig="prog:result-ne-root-step")
+        return
+    bump(out, "progressive_steps", min(len(nodes), 12))
+    if ctx is not None and nodes:
+        c18_prog.check_nodes(ctx, out, nodes, inp, "prog")
     if len({len(s) for s in seqs.values()}) > 1:
         out["nontrivial"].add(("prog", str(sorted(seqs.items())), model, str(params)))
     if not any(s.get("app") == "progressive_align" for s in out["samples"]) and any("-" in r for r in rows.values()):
@@ -1461,6 +1494,8 @@ def spec_check(ctx, budget):
     rng = ctx.subrng(f"spec{budget}")
     from cogent3.align import align
 
+    from . import c18_prog
+
     if getattr(ctx, "driver", None) is not None:
         maxlen = 30 if not ctx.thorough else 60
         check_pair_cases(ctx, out, gen_pair_cases(rng, 150 * budget * (3 if ctx.thorough else 1), maxlen), kind_for_model="corr")
@@ -1497,18 +1532,22 @@ def spec_check(ctx, budget):
     for t in range(10 * budget):
         k = rng.randint(3, 6)
         seqs = gen_seq_family(rng, k, 14, DNA, gen_names(rng, k))
-        tree = None if rng.random() < 0.5 else _caterpillar(seqs, rng)
+        r = rng.random()
+        tree = None if r < 0.35 else (_caterpillar(seqs, rng) if r < 0.6 else c18_prog.random_tree_newick(list(seqs), rng))
         params = {}
-        if rng.random() < 0.5:
-            params["indel_rate"] = rng.choice([1e-10, 1e-3, 0.05])
+        if rng.random() < 0.6:
+            params["indel_rate"] = rng.choice([1e-10, 1e-3, 0.05, 0.05, 0.2])
         if rng.random() < 0.3:
             params["indel_length"] = rng.choice([0.1, 0.3, 0.6])
         if rng.random() < 0.2:
             params["distance"] = "paralinear"
-        check_progressive(out, seqs, rng.choice(["nucleotide", "HKY85", "F81", "TN93"]), tree, params)
+        check_progressive(out, seqs, rng.choice(["nucleotide", "HKY85", "F81", "TN93"]), tree, params, ctx=ctx)
     if budget >= 1:
         pseqs = gen_seq_family(rng, 3, 10, PROT, gen_names(rng, 3))
-        check_progressive(out, pseqs, "protein", None)
+        check_progressive(out, pseqs, "protein", None, ctx=ctx)
+    # the column-merge code directly: random guide trees x random DP outcomes (incl. jumped-over columns)
+    c18_prog.synthetic_checks(ctx, out, rng, 150 * budget, model=False)
+    out["dist"].pop("_prog_known_kept", None)
     return out
 
 
@@ -1539,6 +1578,15 @@ def check_witness(ctx, w):
         check_align_to_ref(ctx, out, w["seqs"], w["ref"], w.get("mat"), w["d"], w["e"], w.get("moltype", "dna"))
     elif w.get("kind") == "pw" and getattr(ctx, "driver", None) is not None:
         check_pair_cases(ctx, out, [dict(w, tag="witness")])
+    elif w.get("kind") == "progmerge":
+        from . import c18_prog
+
+        nodes = []
+        c18_prog.replay_tree(w["tree"], nodes)
+        c18_prog.check_nodes(ctx, out, nodes, dict(tree=w["tree"]), "progmerge", model=False)
+        if not any(f["kind"] == "spec" for f in out["failures"]) and w.get("app"):
+            a = w["app"]
+            check_progressive(out, a["seqs"], a["model"], a.get("guide_tree"), a.get("params"), ctx=ctx)
     fs = [f for f in out["failures"] if f["kind"] == "spec"]
     return fs[0] if fs else None
 
@@ -1567,7 +1615,16 @@ def replay(ctx, data):
         ctx.driver = _drv()
         check_sw_app(ctx, out, inp["s1"], inp["s2"], inp["moltype"], inp.get("mat"), inp["d"], inp["e"], tuple(inp.get("names", ("a", "b"))))
     elif sig.startswith("prog:"):
-        check_progressive(out, inp["seqs"], inp["model"], inp.get("guide_tree"), inp.get("params"))
+        check_progressive(out, inp["seqs"], inp["model"], inp.get("guide_tree"), inp.get("params"), ctx=ctx)
+    elif sig.startswith("progmerge:"):
+        from . import c18_prog
+
+        nodes = []
+        try:
+            c18_prog.replay_tree(inp["tree"], nodes)
+        except Exception:  # noqa: BLE001
+            return sig.startswith("progmerge:raised")
+        c18_prog.check_nodes(ctx, out, nodes, dict(tree=inp["tree"]), "progmerge", model=False)
     elif sig.startswith("pw"):
         ctx.driver = _drv()
         case = dict(inp, tag="replay")
